@@ -2,7 +2,9 @@
 
 
 # ----------------------------------------------------------------------------------------------- reference fnmatch (POSIX, no flags)
-def fnmatch_ref(p, s):
+def fnmatch_ref(p, s, bracket_backslash="quote"):
+    """bracket_backslash: 'quote' = POSIX fnmatch() without FNM_NOESCAPE (a backslash quotes the next character, also inside a bracket
+    expression: glibc, and what GNU find does); 'literal' = regular-expression bracket semantics (the backslash is a member)"""
     def bracket(pi):
         """p[pi] == '['; -> (negated, members, next index) or None if not a bracket expression"""
         j = pi + 1
@@ -12,6 +14,11 @@ def fnmatch_ref(p, s):
         if j < len(p) and p[j] == "]":
             members.append("]"); j += 1
         while j < len(p) and p[j] != "]":
+            if p[j] == "\\" and bracket_backslash == "quote":
+                if j + 1 >= len(p):
+                    return None
+                members.append(p[j + 1]); j += 2
+                continue
             members.append(p[j]); j += 1
         if j >= len(p) or not members:
             return None
